@@ -321,6 +321,12 @@ func c06Arc(c *run.Ctx, idx uint64) {
 		calls = rz.Calls[before:]
 	} else {
 		var e encode.Encoder
+		if r.Bool() {
+			// the Encoder has written another graphic before, possibly abandoned
+			// in the middle of a path or after an error
+			c.Count("encoder_with_a_past", 1)
+			dirtyDestination(r, &e, ivg.DefaultPalette)
+		}
 		e.Reset(vb, ivg.DefaultPalette)
 		e.HighResolutionCoordinates = true
 		rec.ApplyAll(&e, pre)
